@@ -154,9 +154,10 @@ static void case_single(const args_t *a, long c, rng_t *r)
 			STAT("plans");
 		}
 		/* hard errors: the process must stop loudly; mtbl_writer_destroy must not return */
-		static const int errs[] = {EIO, ENOSPC, EBADF, 0 /* write returns 0 */};
-		for (int e = 0; e < 4; e++) {
-			if (!a->thorough && e >= 2 && (i % 4) != (size_t)(c % 4)) continue;
+		static const int errs[] = {EIO, ENOSPC, EBADF, 0 /* write returns 0 */, -ENOSPC /* one byte of progress, then ENOSPC on the retry */, -EIO};
+		for (int e = 0; e < 6; e++) {
+			if (!a->thorough && e >= 2 && e < 4 && (i % 4) != (size_t)(c % 4)) continue;
+			if (e >= 4 && sizes[i] < 2) continue;
 			char errp[4200]; snprintf(errp, sizeof errp, "%s.err", path);
 			fflush(stdout);
 			pid_t pid = fork();
@@ -164,8 +165,9 @@ static void case_single(const args_t *a, long c, rng_t *r)
 				int efd = open(errp, O_WRONLY | O_CREAT | O_TRUNC, 0644); dup2(efd, 2);
 				int nfd = open("/dev/null", O_WRONLY); dup2(nfd, 1);
 				plan_reset();
-				plan = xcalloc(i + 1, sizeof(outcome_t)); plan_len = i + 1;
-				plan[i].kind = errs[e] ? O_HARD : O_ZERO; plan[i].err = errs[e];
+				plan = xcalloc(i + 2, sizeof(outcome_t)); plan_len = i + 2;
+				if (errs[e] < 0) { plan[i].kind = O_PARTIAL; plan[i].n = 1; plan[i + 1].kind = O_HARD; plan[i + 1].err = -errs[e]; }   /* a filling disk: short write, then the error */
+				else { plan[i].kind = errs[e] ? O_HARD : O_ZERO; plan[i].err = errs[e]; plan_len = i + 1; }
 				/* persistent failure from call i on, so a retry cannot paper over it */
 				size_t gl; uint8_t *got = run_writer(path, &cfg, &m, &gl);
 				(void)got;
@@ -173,7 +175,8 @@ static void case_single(const args_t *a, long c, rng_t *r)
 			}
 			int st = 0; waitpid(pid, &st, 0);
 			size_t el = 0; uint8_t *eb = read_file(errp, &el);
-			snprintf(what, sizeof what, "hard error %s at write call #%zu (%s)", errs[e] ? strerror(errs[e]) : "(write returned 0)", i, site_of(i, N, sizes));
+			snprintf(what, sizeof what, "%s %s at write call #%zu (%s)", errs[e] < 0 ? "short write of 1 byte followed by hard error" : "hard error", errs[e] ? strerror(errs[e] < 0 ? -errs[e] : errs[e]) : "(write returned 0)", i, site_of(i, N, sizes));
+			if (errs[e] < 0) STAT("hard.after_short_write");
 			if (WIFEXITED(st) && WEXITSTATUS(st) == 42) {
 				/* the writer returned normally: is the file at least identical (error absorbed by a retry)?  A one-shot error that is
 				   silently retried still violates "never reported as success" only if the error was swallowed: it was. */
